@@ -54,6 +54,10 @@ def _child(req, wfd):
         sys.setrecursionlimit(int(sc.get("recursionlimit", 1000)))
         out = prop.execute(sc)
         res = out.to_json()
+        from .common import SEAM_STATS
+
+        for k, v in SEAM_STATS.items():
+            res["probes"]["seam_" + k] = res["probes"].get("seam_" + k, 0) + v
         res["log_digest"] = chaos.log_digest()
         res["status"] = "violation" if out.violations else "ok"
         ru = resource.getrusage(resource.RUSAGE_SELF)
